@@ -52,6 +52,12 @@ func runC01(c *vkit.Ctx, i int, h *History) {
 	r := c.Rand("run", i)
 	s := NewSess("c01")
 	defer s.Close()
+	if i%4 == 3 {
+		// the snapshot directory does not exist yet (and may contain a percent sign): only a
+		// call that stores something may create it
+		s.Sub = SubDirs[(i/4)%len(SubDirs)]
+		c.Count("sessions_whose_snapshot_directory_does_not_exist_yet", 1)
+	}
 	s.ShareConfigs = i%2 == 0
 	s.ZeroConfigs = i%4 == 1
 	if s.ShareConfigs {
